@@ -3,6 +3,8 @@ CONSTANTS
     Mode = "seq"
     RestorePars = TRUE
     RestoreY0 = FALSE
+    Cyclic = FALSE
+    EarlyRestoreY0 = FALSE
 INIT Init
 NEXT Next
 INVARIANT ParsRestored
